@@ -155,6 +155,21 @@ func (s *Sim) checkTx(b *blockObs, i int, tx []byte, r abci.ResponseDeliverTx, b
 	if changed {
 		s.checkStatusMoves(t)
 	}
+	if changed && rec.Step.Kind == "send" && rec.Step.ToMod != "" {
+		// what a staking pool was sent directly is no stake of anybody (C19/C20 keep count); counted
+		// for every delivery that took effect, re-submitted copies included
+		if got := t.delta(s.sendTo(&rec.Step).String()); got.IsPositive() {
+			if s.sentToModule == nil {
+				s.sentToModule = map[string]sdk.BigInt{}
+			}
+			prev, ok := s.sentToModule[rec.Step.ToMod]
+			if !ok {
+				prev = sdk.ZeroInt()
+			}
+			s.sentToModule[rec.Step.ToMod] = prev.Add(got)
+			s.res.Probe("send_to_module_account_accepted")
+		}
+	}
 	if t.resub {
 		// a resubmitted copy that took effect (the recorded C16 finding) still moves the model
 		if changed && rec.Step.Kind == "gov_upgrade" && r.Code == 0 && s.allowedSigner(t) && s.aclOwner(t.vb, "gov/upgrade") == rec.SignAddr {
@@ -272,7 +287,7 @@ func (s *Sim) checkSend(t *txCtx, changed bool) {
 		return
 	}
 	rec := t.rec
-	from, to := s.key(rec.Step.From).String(), s.key(rec.Step.To).String()
+	from, to := s.key(rec.Step.From).String(), s.sendTo(&rec.Step).String()
 	feeAddr := ModuleAddr(authTypes.FeeCollectorName)
 	fee, amt := sdk.NewInt(rec.Step.Fee), sdk.NewInt(rec.Step.Amount)
 	if nc := t.nonAccountChanges(); len(nc) > 0 {
